@@ -46,6 +46,16 @@ static inline void cxx2c_PyErr_SetString (int kind, const char *msg) { (void) ms
 #define cxx2c_assert_fail(e, f, l, fn) __CPROVER_assert (0, "assert() in the extracted code")
 #endif
 
+/* element operations of the vectorised kernels (C20): arbitrary pure functions */
+#ifndef VF_NATIVE
+int __CPROVER_uninterpreted_vfop2 (int, int);
+int __CPROVER_uninterpreted_vfop1 (int);
+static inline int cxx2c_vfop2 (int *a, int *b) { return __CPROVER_uninterpreted_vfop2 (*a, *b); }
+static inline int cxx2c_vfop1 (int *a) { return __CPROVER_uninterpreted_vfop1 (*a); }
+#define VFOP2(a, b) __CPROVER_uninterpreted_vfop2 (a, b)
+#define VFOP1(a) __CPROVER_uninterpreted_vfop1 (a)
+#endif
+
 /* ---- arithmetic on floating element types: the one place its meaning is chosen ---- */
 #ifdef CXX2C_ABS_ARITH
 /* mode ABS: + - * / are uninterpreted (congruence only) */
